@@ -10,6 +10,7 @@
  *   verif_k   ghost array index (find_position)
  *   verif_g4  find_position: "entry verif_k is strictly below the key" (set by the hook)
  *   verif_g2  update_entry: id of the EA inode created for the new value (0 = none was created)
+ *   xat_bk    ghost BYTE index for the copies made by xattr_update_entry (defined in xat_common.h)
  */
 #ifndef VERIF_NATIVE
 /* the entry at a[j] is strictly below the key (sn, ni) in the kernel's order */
@@ -38,9 +39,16 @@ static int xattr_find_position(struct ext2_xattr *attrs, int count, const char *
 static errcode_t xattr_update_entry(ext2_filsys fs, struct ext2_xattr *x, const char *name, const char *short_name,
 				    int index, const void *value, size_t value_len, int in_inode)
 	ENSURES(RET == 0 || XAT_SLOT_SAME(x))
+	ENSURES(RET != EXT2_ET_EA_NO_SPACE)	/* the only origin of that code in the tree is xattr_array_update itself */
+	ENSURES(RET >= 0 && RET <= 0x7fffffffL)	/* error codes are errno values or 32-bit com_err codes; the caller keeps them in an int */
 	ENSURES(RET != 0 || (x->name_index == index && x->value_len == (unsigned int)value_len))
 	ENSURES(RET != 0 || ((x->ea_ino != 0) == (in_inode != 0) && x->ea_ino == (ext2_ino_t)verif_g2))
 	ENSURES(RET != 0 || (x->name != 0 && x->value != 0 && x->value != OLD(x->value)))
 	ENSURES(RET != 0 || OLD(x->name) == 0 || (x->name == OLD(x->name) && x->short_name == OLD(x->short_name)))
 	ENSURES(RET != 0 || OLD(x->name) != 0 || x->short_name == x->name + (short_name - name))
-	ASSIGNS(*x, verif_g2);
+	/* the copies, at the ghost byte index */
+	ENSURES(RET != 0 || !(xat_bk < value_len) || ((const unsigned char *)x->value)[xat_bk] == ((const unsigned char *)value)[xat_bk])
+	ENSURES(RET != 0 || OLD(x->name) != 0 || !(xat_bk <= XSPEC_STRLEN(name)) ||
+		((const unsigned char *)x->name)[xat_bk] == ((const unsigned char *)name)[xat_bk])
+	ASSIGNS(*x, verif_g2)
+	XAT_FREES(x->value);
